@@ -700,8 +700,11 @@ func boundedFamilies() []prog {
 		{"forrange-closure", "g=1; mk=(k)=>{()=>k+g}; n=0; for i=0:2000 {for j=0:1000 {n=mk(j)()}}; n", ""},
 		{"rec-in-forin", "g=0; func dn(n){g; if n<=0 {return 0}; dn(n-1)}; a=0:3000; for x=a {for y=a[0:40] {dn(20)}}", ""},
 	}
+	// "error": an operator that receives the context error from an operand may report its own error instead
+	// (x[l:r] says "range index not integer"); the run still ends at once.  An error BEFORE the deadline would mean
+	// the family is broken: checked where the families are run.
 	for i := range fs {
-		fs[i].want = "deadline"
+		fs[i].want = "deadline error"
 	}
 	return fs
 }
@@ -816,10 +819,19 @@ func runC09(c *Ctx) {
 	for fi, p := range fams {
 		dur := 200 + 100*(fi%3)
 		sp := childSpec{Src: p.src, MaxDepth: 400, DurMs: dur, ASLimit: asLimit}
-		judge(c, p.kind, sp, runChild(c, sp, memLimitStr, 25*time.Second), p.want)
+		early := func(r childResult, limit int) {
+			if r.ok && r.rep.WallMs < 0.5*float64(limit) {
+				c.Fail("harness:family-ends-early:"+p.kind, p.src, fmt.Sprintf("ended after %.0f ms, before the %d ms limit: %v", r.rep.WallMs, limit, r.rep.Errs))
+			}
+		}
+		r := runChild(c, sp, memLimitStr, 25*time.Second)
+		judge(c, p.kind, sp, r, p.want)
+		early(r, dur)
 		if c.Thorough() || fi%3 == 0 {
 			sp = childSpec{Src: p.src, MaxDepth: 400, CancelMs: 150 + 50*(fi%4), ASLimit: asLimit}
-			judge(c, p.kind, sp, runChild(c, sp, memLimitStr, 25*time.Second), p.want)
+			r = runChild(c, sp, memLimitStr, 25*time.Second)
+			judge(c, p.kind, sp, r, p.want)
+			early(r, sp.CancelMs)
 		}
 		if c.Thorough() { // calibration: how long the program runs when nothing stops it (must be well above deadline + slack)
 			sp = childSpec{Src: p.src, MaxDepth: 400, DurMs: 40000, ASLimit: asLimit}
